@@ -151,6 +151,34 @@ def windowed_then_op(rng):
     return p, cur
 
 
+def fixed_window_cases():
+    """A deterministic sweep (no random choices): a window [start, start+width) of a total order at a plain, UNION ALL,
+    UNION and hidden-column level over tables with repeated rows, followed by each kind of operation.  -> programs whose
+    multiset of rows is determined."""
+    a, b, c = K(1), K(2), K(3)
+    A = ("leaf", 1, SQL, [a, b, c], [{a: 1, b: 10, c: 5}, {a: 1, b: 10, c: 5}, {a: 2, b: 20, c: 6}, {a: 3, b: 10, c: 5}, {a: 2, b: 20, c: 6}], (0, None))
+    B = ("leaf", 2, SQL, [a, b, c], [{a: 1, b: 10, c: 5}, {a: 4, b: 20, c: 6}], (0, None))
+    out = []
+    for shape in ("plain", "chain", "union", "hidden"):
+        base, cur = A, [a, b, c]
+        if shape == "chain":
+            base = ("chain", A, B)
+        elif shape == "union":
+            base = ("un", ("dedup",), mp.DEFAULT, ("chain", A, B))
+        elif shape == "hidden":
+            base, cur = ("un", ("proj", [a, b]), mp.DEFAULT, A), [a, b]
+        terms = [(("ref", x), True) for x in cur]
+        for start, width in ((0, 1), (1, 1), (2, 1), (1, 2), (3, 1)):
+            w = ("un", ("slice", start, start + width), mp.DEFAULT, ("un", ("sort", terms), mp.DEFAULT, base))
+            ops = [("dedup",), ("sel", ("cmp", "ge", ("ref", a), ("lit", 2))), ("calc", c if shape == "hidden" else K(7), ("add", ("ref", a), ("ref", b))),
+                   ("proj", [b])]
+            for o in ops:
+                out.append(("un", o, mp.DEFAULT, w))
+            again = list(reversed(terms))
+            out.append(("un", ("slice", 0, 1), mp.DEFAULT, ("un", ("sort", again), mp.DEFAULT, w)))
+    return out
+
+
 def compound_order_cases(rng):
     """Orders at compound (UNION / UNION ALL / DISTINCT) query levels: (1) an unsliced sort by plain columns re-sorted by
     a total order that starts with a general expression — the engine may refuse (row-order loss) but must not return
@@ -162,6 +190,20 @@ def compound_order_cases(rng):
     l1 = ("leaf", 1, SQL, [a, b], [{a: x, b: y} for x, y in vals[:4]], (0, None))
     l2 = ("leaf", 2, SQL, [a, b], [{a: x, b: y} for x, y in vals[4:7]], (0, None))
     base = rng.choice([("chain", l1, l2), ("un", ("dedup",), mp.DEFAULT, ("chain", l1, l2)), ("un", ("dedup",), mp.DEFAULT, l1)])
+    if rng.random() < 0.3:
+        # a sort by a column that a projection then hides, DISTINCT, a re-sort by a kept column that has ties (the hidden
+        # order still breaks them), and a window
+        c = K(3)
+        rows = [{a: i // 2, b: 9 - i, c: 10 * (i + 1)} for i in range(4)]
+        if rng.random() < 0.5:
+            rows = list(reversed(rows))
+        t = ("leaf", 1, SQL, [a, b, c], rows, (0, None))
+        p = ("un", ("sort", [(("ref", b), rng.random() < 0.5)]), mp.DEFAULT, t)
+        p = ("un", ("proj", [a, c]), mp.DEFAULT, p)
+        p = ("un", ("dedup",), mp.DEFAULT, p)
+        p = ("un", ("sort", [(("ref", a), True)]), mp.DEFAULT, p)
+        p = ("un", ("slice", 0, rng.choice([1, 3])), mp.DEFAULT, p)
+        return p, {a, c}
     if rng.random() < 0.5:
         first = [(("ref", a), True), (("ref", b), rng.random() < 0.5)]
         second = [(("neg", ("ref", b)), True), (("ref", a), rng.random() < 0.5)]
@@ -196,7 +238,11 @@ def self_join(rng):
         if r < 0.85:
             return ("un", ("dedup",), mp.DEFAULT, x)
         return ("un", ("calc", N(5), ("add", ("ref", a), ("lit", 1))), mp.DEFAULT, x)
-    shape = rng.choice(["same", "same", "dressed", "dressed", "three_l", "three_r"])
+    shape = rng.choice(["same", "same", "dressed", "dressed", "three_l", "three_r", "doomed"])
+    if shape == "doomed":
+        # the engine's own doomed relation (its payload is a subquery, not a table) on both sides
+        D = ("leaf", 3, SQL, [a, b], [], (0, 0), "doomed")
+        return ("join", None, True, False, D, ("un", ("calc", N(5), ("neg", ("ref", b))), mp.DEFAULT, D))
     if shape == "same":
         x = dress(A)
         return ("join", None, True, False, x, x)
